@@ -591,3 +591,5 @@ def _sum_shape(v):
             elt2[2][0][2] == names.current().listeners[1]):
         return False, "per-mailbox count is %s, not the number of listeners" % show(elt2)[:60]
     return True, ""
+
+EXPLANATION += ' Batch 6: wire form json+utf-8 only (R15.wire).'
